@@ -55,12 +55,13 @@ def _quantised_scaled_dot_product_attention(
     value: Tensor,
     fwd_format_tuple: Tuple[int, int],
     bwd_format_tuple: Tuple[int, int],
+    *args: Any,
     **kwargs: Any,
 ) -> Tensor:
     fwd_format = tuple_to_format(fwd_format_tuple)
     bwd_format = tuple_to_format(bwd_format_tuple)
     query, key, value = (fwd_format.quantise_fwd(t) for t in (query, key, value))
-    output = F.scaled_dot_product_attention(query, key, value, **kwargs)
+    output = F.scaled_dot_product_attention(query, key, value, *args, **kwargs)
     return bwd_format.quantise_bwd(output)
 
 
@@ -70,12 +71,13 @@ def _quantised_u_scaled_dot_product_attention(
     value: Tensor,
     fwd_format_tuple: Tuple[int, int],
     bwd_format_tuple: Tuple[int, int],
+    *args: Any,
     **kwargs: Any,
 ) -> Tensor:
     fwd_format = tuple_to_format(fwd_format_tuple)
     bwd_format = tuple_to_format(bwd_format_tuple)
     query, key, value = (fwd_format.quantise_fwd(t) for t in (query, key, value))
-    output = U.scaled_dot_product_attention(query, key, value, **kwargs)
+    output = U.scaled_dot_product_attention(query, key, value, *args, **kwargs)
     return bwd_format.quantise_bwd(output)
 
 
